@@ -65,6 +65,9 @@ def gen(rng, i):
 def run(ck):
     quick = ck.tier == "quick"
     rng = random.Random(ck.seed)
+    # a blocking submit() spins while the shared event stays set; under an unfair schedule that can exhaust the
+    # step budget - the judged prefix is still a real execution
+    ck.allow_truncation = True
     # 1. TLC: the model of the shipped code satisfies every clause but the recorded finding D6 ...
     ck.mc("Throttle", "Throttle.mc.cfg", timeout=3000)
     ck.mc("Throttle", "Throttle.mc2.cfg", timeout=3000)
